@@ -4123,7 +4123,17 @@ class TryExceptNode(ActionSinkNode, ActionSourceNode):
         # If there _is_ a handler, add it after
         if self.handler is not None:
             handler_dfa = self.handler.convert(current_error_handlers)
-            sub_dfa.append_after(handler_dfa, sub_states=[self.handler_node], chain_actions=self.incoming_handler_actions)
+            handler_actions = self.incoming_handler_actions
+            if handler_actions and handler_dfa.starting_state in handler_dfa.accepting_states:
+                # The handler can match nothing (it starts with an optional), so append_after would push its leading actions back onto the
+                # transitions that lead into the handler node. Running out of space enters that node by a redirect, without taking any
+                # transition, and would skip them: give the handler an explicit entry that carries the actions instead.
+                entry = DFState()
+                handler_dfa.add(entry)
+                entry.transition(DFTransition([DFTransition.Else], fallthrough=True).to(handler_dfa.starting_state).attach(*handler_actions))
+                handler_dfa.starting_state = entry
+                handler_actions = []
+            sub_dfa.append_after(handler_dfa, sub_states=[self.handler_node], chain_actions=handler_actions)
         else:
             # Otherwise, create a fallthrough dummy transition to hook up the handler actions.
             dummy_end_node = DFState()
